@@ -46,7 +46,8 @@ def int_text(h, w):
         return str(h % 2)
     v = h % (10 ** min(w - 1, 9))
     if w >= 4 and (h >> 40) & 1:
-        return f"-{v % (10 ** min(w - 2, 9))}"
+        t = f"-{v % (10 ** min(w - 2, 9))}"
+        return "-2" if t == "-1" else t  # -1 is the reader's 'blank' marker: never write it as a value
     return str(v)
 
 
